@@ -263,12 +263,22 @@ func (r *run) enqueueResponse(p *peerT, buff []byte, forged int) {
 	d1, d2, extra := msDelay(rr, r.net.maxDelay), msDelay(rr, r.net.maxDelay*3), time.Duration(rr.Int63n(3000))*time.Millisecond
 	// the resolver builds the batch from a Go map: the seam fixes the order (sorted, then shuffled from the plan)
 	b := batch.Batch{}
-	if forged == 0 && triekit.Marshalizer.Unmarshal(&b, buff) == nil && len(b.Data) > 1 {
+	if forged == 0 && triekit.Marshalizer.Unmarshal(&b, buff) == nil && len(b.Data) > 0 {
 		sort.Slice(b.Data, func(i, j int) bool { return bytes.Compare(b.Data[i], b.Data[j]) < 0 })
 		sh := simkit.NewRand(simkit.Mix(r.shuffle, uint64(idx)))
 		for i := len(b.Data) - 1; i > 0; i-- {
 			j := sh.Intn(i + 1)
 			b.Data[i], b.Data[j] = b.Data[j], b.Data[i]
+		}
+		if p.kind == peerSloppy { // same nodes, other bytes: a share of the elements is re-encoded non-canonically
+			for i := range b.Data {
+				if sh.Intn(1000) < p.subsetPm {
+					if nc := nonCanonical(sh, b.Data[i]); nc != nil {
+						b.Data[i] = nc
+						r.probe("non_canonical_encoding_sent")
+					}
+				}
+			}
 		}
 		if nb, err := triekit.Marshalizer.Marshal(&b); err == nil {
 			buff = nb
